@@ -40,7 +40,7 @@ func (c11) Runs(tier string) int {
 
 func (p c11) Run(runseed uint64, tier string, acc *Acc) []*core.Violation {
 	r := core.NewRng(runseed)
-	o := core.HistOpts{Shapes: allShapes, PageMin: 1, PageMax: 8, MinBatches: 0, MaxBatches: 4, MaxOps: 30, Profile: core.Benign, LargePct: 1, ManyPct: 1, ManyMax: 60}
+	o := core.HistOpts{Shapes: allShapes, PageMin: 1, PageMax: 8, MinBatches: 0, MaxBatches: 4, MaxOps: 30, Profile: core.Benign, LargePct: 1, ManyPct: 1, ManyMax: 60, HugePct: 1}
 	if tier == "thorough" {
 		o.MaxOps = 60
 	}
@@ -70,6 +70,9 @@ func (p c11) Run(runseed uint64, tier string, acc *Acc) []*core.Violation {
 	}
 	if f.W.Many {
 		acc.Inc("class/many-row-groups")
+	}
+	if f.W.Huge {
+		acc.Inc("class/huge-values")
 	}
 	L := len(f.Data)
 	if L > 64<<10 {
